@@ -94,6 +94,50 @@ def confirm(nat, text, names, acs, mode, sort, stmt, asg, stats):
     return got != want, 'statement %s under %s: diagram %s, formula %s' % (stmt, {k: int(v) for k, v in a.items()}, got, want)
 
 
+def canonicity_run(ctx, tier, seed):
+    """C06 on the bridge conversions: the node table produced by from_biodivine / hybrid_step is reduced, ordered and duplicate-free, and
+    two statements hold the same handle iff z3 proves their (substituted) acceptance formulas equivalent"""
+    nat = ctx.native(); stats = {'queries': 0, 'obligations': 0, 'solver_s': 0.0}
+    confirmed = []; inconclusive = []; nprog = 0; pairs = 0
+    progs = programs(tier, seed)[: (60 if tier == 'quick' else 400)]
+    s = z3.Solver()
+    for pi, (txt, names, acs, origin) in enumerate(progs):
+        for mode in ('native', 'bridge', 'hybrid', 'hybrid_noopt'):
+            out = nat.call({'cmd': 'compile', 'text': txt, 'mode': mode, 'sort': 'none'}, timeout=120)
+            if 'nodes' not in out: inconclusive.append('compile failed: %s' % str(out)[:100]); continue
+            nprog += 1
+            nodes = [(int(v), lo, hi) for v, lo, hi in out['nodes']]; cn = out['names']
+            probs = []
+            seen = {}
+            for i, (v, lo, hi) in enumerate(nodes):
+                if i < 2: continue
+                if lo == hi: probs.append('node %d has equal branches' % i)
+                if (v, lo, hi) in seen: probs.append('nodes %d and %d are duplicates' % (seen[(v, lo, hi)], i))
+                seen[(v, lo, hi)] = i
+                for ch in (lo, hi):
+                    if ch >= i: probs.append('node %d: child %d not earlier' % (i, ch))
+                    elif ch > 1 and nodes[ch][0] <= v: probs.append('node %d: child %d does not test a later variable' % (i, ch))
+            X = {n: z3.Bool('c_%d' % k) for k, n in enumerate(names)}
+            ground = z3_grounded(names, acs, X, stats) if mode == 'hybrid' else {}
+            sub = [(X[n], z3.BoolVal(v)) for n, v in ground.items()]
+            F = []
+            for n in cn:
+                f = T.to_z3(acs[n], lambda a: X[a])
+                F.append(z3.substitute(f, *sub) if sub else f)
+            lim = min(len(cn), 12)
+            for i in range(lim):
+                for j in range(i):
+                    pairs += 1; stats['queries'] += 1
+                    equiv = s.check(F[i] != F[j]) == z3.unsat
+                    if equiv != (out['ac'][i] == out['ac'][j]):
+                        probs.append('statements %s and %s: handles %d,%d but their conditions are %s' % (cn[j], cn[i], out['ac'][j], out['ac'][i], 'equivalent' if equiv else 'different'))
+            if probs:
+                confirmed.append(('canon:%s:%s' % (mode, hashlib.sha1(txt.encode()).hexdigest()[:12]),
+                                  {'kind': 'non-canonical-import', 'what': '%s compilation: %s' % (mode, '; '.join(probs[:3])), 'text': txt, 'mode': mode, 'sort': 'none', 'canon': True}, out))
+    cov = {'bridge_programs': nprog, 'bridge_handle_pairs_decided_by_z3': pairs, 'bridge_note': 'node tables of native / bridge / pre-grounded bridge compilations of seeded texts: structural invariants on the dumped table, handle equality vs z3 equivalence of the formulas'}
+    return confirmed, cov, inconclusive
+
+
 def programs(tier, seed):
     rng = random.Random(seed * 7 + 2)
     progs = []
